@@ -488,9 +488,9 @@ func propC08(c *Ctx, r *Report) {
 		"%s has balance that is not uint64: %s":    "sum of at most 61 int64 conversions of one address; needs > 2^64 pUSD-units of stake",
 		"trying to grade a non-opr chain":          "the eblock is looked up by config.OPRChain",
 		"trying to grade a non-spr chain":          "the eblock is looked up by config.SPRChain",
-		"SPR & OPR use different assets version":   "winners of one height are graded with versions of the same era; returned error is dropped by the errRate bug (C10 finding) so it cannot wedge",
-		"opr is out side of tolerance band":        "before 2.0.2 only; returned through errRate and dropped (C10 finding), so the block is committed without rates rather than wedged",
-		"opr is out side of spr's tolerance band":  "see above",
+		"SPR & OPR use different assets version":   "DROPPED: winners of one height are graded with versions of the same era; returned error is dropped by the errRate bug (C10 finding) so it cannot wedge",
+		"opr is out side of tolerance band":        "DROPPED: before 2.0.2 only; returned through errRate and dropped (C10 finding), so the block is committed without rates rather than wedged",
+		"opr is out side of spr's tolerance band":  "DROPPED: see above",
 		"no winners":                               "unreachable: called only when at least one winner list is non-empty",
 		"bank entry not added":                     "database anomaly (RowsAffected != 1), not chain content",
 		"bank entry not updated":                   "the row of this height is inserted by SyncBank earlier in the same block",
@@ -551,6 +551,16 @@ func propC08(c *Ctx, r *Report) {
 	ruleReplaySameTx(c, r, cat, "C08/replay-guard")
 	// transfer amounts cannot wrap past the input (a wrapped sum lets an amount >= 2^63 reach a statement)
 	ruleValidateBounds(c, r, "C08/transfer-sum-exact")
+	{
+		dropped := map[string]bool{}
+		for m, why := range auditedMsg {
+			if strings.HasPrefix(why, "DROPPED: ") {
+				dropped[m] = true
+			}
+		}
+		ruleRateVerdictDropped(c, r, "C08/rate-verdict-not-fatal", dropped)
+	}
+	ruleUnpricedNotValued(c, r, "C08/unpriced-not-valued")
 	r.rule("C08/convert-verdicts", 2, "a Convert error that is propagated was ruled out by an identical, dropped pre-check")
 	convertVerdicts(c, r, "C08/convert-verdicts")
 
